@@ -255,6 +255,7 @@ fn run(sc: &TScenario, mask: Mask, rx: (f64, f64), out: &mut Outcome, h: &mut Fn
         prev_t = Some(t);
         out.virtual_ns = out.virtual_ns.max(t);
         out.steps += 1;
+        #[cfg(not(feature = "alloc_only"))]
         rsadsb_common::verif_clock::set(vt(t));
         match ev {
             TEv::Frame { hex, note, .. } => {
@@ -414,8 +415,15 @@ fn run(sc: &TScenario, mask: Mask, rx: (f64, f64), out: &mut Outcome, h: &mut Fn
             }
             TEv::Burst { .. } => {}
             TEv::Prune { secs, .. } => {
+                // the alloc-only build has neither a clock nor expiry
+                #[cfg(feature = "alloc_only")]
+                {
+                    let _ = secs;
+                    continue;
+                }
                 let full = need_snap && (!light || tr.len() <= 64);
                 let before = if full { snap(&tr) } else { snap_keys(&tr) };
+                #[cfg(not(feature = "alloc_only"))]
                 tr.prune(*secs);
                 let after = if full { snap(&tr) } else { snap_keys(&tr) };
                 h.str("prune");
@@ -872,13 +880,19 @@ fn isolation_replay(events: &[TEv], max_range: f64, rx: (f64, f64), tr: &Airplan
             match ev {
                 TEv::Burst { .. } => {}
                 TEv::Prune { t, secs } => {
-                    rsadsb_common::verif_clock::set(vt(*t));
-                    solo.prune(*secs);
+                    #[cfg(not(feature = "alloc_only"))]
+                    {
+                        rsadsb_common::verif_clock::set(vt(*t));
+                        solo.prune(*secs);
+                    }
+                    let _ = (t, secs);
                 }
                 TEv::Frame { t, hex, .. } => {
                     if it.peek() == Some(&&i) {
                         it.next();
+                        #[cfg(not(feature = "alloc_only"))]
                         rsadsb_common::verif_clock::set(vt(*t));
+                        let _ = t;
                         if let Ok(f) = Frame::from_bytes(&wire::unhex(hex)) {
                             let _ = solo.action(f, rx, max_range);
                         }
